@@ -13,7 +13,7 @@ func TestVerifSys(t *testing.T) {
 	defer r.Close()
 	run := func(s Scn) {
 		out := verifkit.Guard(func() string { return Exec(s) })
-		r.Emit(s, out, Tags(s, out)...)
+		r.Emit(s, out, append(Tags(s, out), EnvTags(s, out)...)...)
 	}
 	for _, line := range r.Fixed() {
 		var s Scn
@@ -38,6 +38,22 @@ func TestVerifSys(t *testing.T) {
 	n = r.Pick(2000, 30000)
 	for i := 0; i < n; i++ {
 		run(Random(r.Rng, false))
+	}
+	// (S1B) loss of a delegated phase's API object — deleted by a third party plainly, with orphan
+	// propagation or by force — recovery by both controllers, handover to the next revision
+	n = r.Pick(600, 2000)
+	for i := 0; i < n; i++ {
+		run(PhaseLoss(r.Rng))
+	}
+	// environment behaviour beyond edits of single objects (gen_env.go): refused writes on managed
+	// objects, passes on a stale read of their ObjectSet, kinds served under two API versions,
+	// kinds re-registered with another scope while the controllers keep running
+	n = r.Pick(250, 2500)
+	for i := 0; i < n; i++ {
+		run(Faulted(r.Rng))
+		run(Stale(r.Rng))
+		run(Versioned(r.Rng))
+		run(Rescoped(r.Rng))
 	}
 }
 
